@@ -2,7 +2,8 @@ pub mod io {
 use vstd::prelude::*;
 use std::cell::RefCell;
 use std::rc::Rc;
-use std::task::Waker;
+use std::task::{Context, Poll as TaskPoll, Waker};
+use std::io::{IoSlice, IoSliceMut};
 use std::os::unix::io::{AsFd, AsRawFd, BorrowedFd, RawFd};
 use crate::loop_logic::EventIterator;
 use crate::{loop_logic::LoopInner, sources::EventDispatcher, Interest, Mode, Poll, PostAction, Readiness, Token, TokenFactory};
